@@ -4771,10 +4771,20 @@ fn announce_service_on_intf(
 /// - `foo (2).local.` becomes `foo (3).local.`
 /// - `foo (9)` becomes `foo (10)`
 fn name_change(original: &str) -> String {
-    let mut parts: Vec<_> = original.split('.').collect();
-    let Some(first_part) = parts.get_mut(0) else {
-        return format!("{original} (2)");
-    };
+    // The first label ends at the first dot that is not escaped (RFC 6763 4.3).
+    let mut split_pos = original.len();
+    let mut escaped = false;
+    for (i, ch) in original.char_indices() {
+        if escaped {
+            escaped = false;
+        } else if ch == '\\' {
+            escaped = true;
+        } else if ch == '.' {
+            split_pos = i;
+            break;
+        }
+    }
+    let (first_part, rest) = original.split_at(split_pos);
 
     let mut new_name = format!("{first_part} (2)");
 
@@ -4795,8 +4805,7 @@ fn name_change(original: &str) -> String {
         }
     }
 
-    *first_part = &new_name;
-    parts.join(".")
+    format!("{new_name}{rest}")
 }
 
 /// Returns a new name based on the `original` to avoid conflicts.
